@@ -4,7 +4,7 @@
    DESIGN.md). *)
 From Coq Require Import List ZArith Bool.
 From JSL Require Import Base.Res Base.ListX SM.Types SM.Util SM.Handler SM.Step SM.Inv
-  SMP.Post SMP.PostApply SMP.Offers SMP.Clock SM.Middleware SM.ExampleShift SMP.StepInv SMP.LiftSide SMP.OutputDone SMP.Reflect SMP.LiftProv SMP.ProvBatch SMP.Durations SM.Events SMP.EventsRun.
+  SMP.Post SMP.PostApply SMP.Offers SMP.Clock SM.Middleware SM.ExampleShift SMP.StepInv SMP.LiftSide SMP.OutputDone SMP.Reflect SMP.LiftProv SMP.ProvBatch SMP.Durations SM.Events SMP.EventsRun SMP.Due.
 Import ListNotations.
 
 (* SETUP->WORKING: the operation is stamped start = now, planned end = now + d where d is the configured
@@ -153,3 +153,19 @@ Theorem C02_duration_events_hold_along_every_run :
     reach sigma i fuel x0 joker0 ta r m -> mw_step sigma i fuel r m a = MOk r' m' lg -> chain_events i (r_x r) lg.
 Proof. intros sigma i fuel x0 joker0 ta r m a r' m' lg Hnn. apply run_events_ok; auto. Qed.
 Print Assumptions C02_duration_events_hold_along_every_run.
+
+(* over whole runs of every instance, exactness in time: every timed transition of every micro-log - the end of a setup, the end of processing,
+   the end of a machine's outage, an AGV's arrival at the pickup point, a delivery, the end of an AGV's outage - is applied in a state whose clock
+   EQUALS the component's occupied_till (ev_due): never early (created only when occupied_till <= now, and nothing applied before it in the
+   batch touches its component: a batch invariant) and never late (clock invariant; a busy machine's occupied_till is the end of its
+   PROCESSING record). With ev_work / ev_machine_outage / ev_machine_release this makes a completed operation's interval exactly the drawn
+   duration plus the applied outage. SMP/Due.v *)
+Theorem C02_timed_events_fire_exactly_when_due_along_every_run :
+  forall (sigma : oracle) (i : inst) (fuel : nat) (x0 : state) (joker0 : Z) (ta : bool) (r : result) (m : mw)
+         (a : Z) (r' : result) (m' : mw) (lg : mlog),
+    inst_nonneg_b i = true ->
+    clock_b x0 = true -> wfs_b i x0 = true -> fresh2_b i x0 = true -> nodep_b x0 = true -> pre_ok_b x0 = true ->
+    reach sigma i fuel x0 joker0 ta r m -> mw_step sigma i fuel r m a = MOk r' m' lg -> chain_due (r_x r) lg.
+Proof. intros sigma i fuel x0 joker0 ta r m a r' m' lg Hnn. apply (run_due_ok sigma i Hnn); auto. Qed.
+Print Assumptions C02_timed_events_fire_exactly_when_due_along_every_run.
+
